@@ -261,6 +261,13 @@ def run(ctx):
                         'process_last_state does not treat the unchanged last state as an update (timestamp kept, GetLastState not answered)',
                         'peer proves 18, then SendLastState(17); every GetBlocksProof{last_hash=#18} is answered with last_header=#17 only: the "unchanged last state" timer is '
                         'reset each time, the peer is never disconnected and the header is never fetched')
+    # ---- every in-flight fetch of the peer is released: the per-hash loops visit all hashes (seeded C11-4: `return` for `continue`) ----
+    _nl = 0
+    for _fn in ('Peers::mark_fetching_headers_timeout', 'Peers::mark_fetching_txs_timeout', 'Peers::mark_fetching_headers_missing', 'Peers::mark_fetching_txs_missing'):
+        if P.has(_fn):
+            _nl += ctx.loop_visits_all('C11.r11', ctx.body(_fn), 'the per-hash loop visits every hash of the request (no return inside the loop)',
+                                       'request for [h1, h2] where h1 was already answered: the loop returns at h1, h2 stays `fetching` for ever')
+    ctx.floor('C11.r11', 'per-hash loops of the fetch bookkeeping', _nl, 2)
     census_fns.run(ctx, 'C11')
 
 
